@@ -37,7 +37,7 @@ MANIFEST = {
                  "TLC-computed expectations replayed on the real router",
 }
 
-ANCHOR_CFG = "SPECIFICATION Spec\n"
+ANCHOR_CFG = "SPECIFICATION Spec\nCONSTANTS\n  Full = %s\n"
 
 
 def nontrivial(c):
@@ -72,22 +72,24 @@ def run(ctx):
     rng = random.Random(ctx.seed)
 
     def anchors():
-        r = ctx.tlc("RoutingPlace_anchor", "anchor.cfg", extra_files={"anchor.cfg": ANCHOR_CFG}, workers=1, timeout=900,
+        r = ctx.tlc("RoutingPlace_anchor", "anchor.cfg", extra_files={"anchor.cfg": ANCHOR_CFG % ("TRUE" if thorough else "FALSE")}, workers=1, timeout=900,
                     heap="2g", xss="64m", label="ground-truth anchors (murmur3 vectors, Mycat-computed placements)")
         ctx.log("anchors hold", "%.1fs" % r.wall)
         return []
 
     n = 10 if not thorough else 40
     x1, x2, x3 = (_place.extra_for("mycat", rng, n) for _ in range(3))
-    jobs = [anchors,
-            lambda: _place.generate(ctx, "mycat_murmur", "C08", thorough, [0], x1, timeout=1800, xss="64m"),
-            lambda: _place.generate(ctx, "mycat_string", "C08", thorough, [0], x2, timeout=1800),
-            lambda: _place.generate(ctx, "mycat_mod+mycat_long", "C08", thorough, [0], x3, timeout=1800)]
+    jobs = [anchors, lambda: _place.generate(ctx, "mycat_murmur", "C08", thorough, [0], x1, timeout=1800, xss="64m")]
+    if thorough:
+        jobs += [lambda: _place.generate(ctx, "mycat_string", "C08", True, [0], x2, timeout=1800),
+                 lambda: _place.generate(ctx, "mycat_mod+mycat_long", "C08", True, [0], x3, timeout=1800)]
+    else:
+        jobs += [lambda: _place.generate(ctx, "mycat_mod+mycat_long+mycat_string", "C08", False, [0], x2, timeout=1800)]
     cases = [c for part in _place.parallel(jobs, 4) for c in part]
     for k in vlib.known_replay_cases("C08"):
         if k.get("kind") == "place":
             cases.append(dict(k["case"]))
-    summ = _place.replay(ctx, cases)
+    summ = _place.replay(ctx, cases, selftest=True)
     ctx.log("replayed", summ)
     nt = set()
     for c in cases:
@@ -98,4 +100,3 @@ def run(ctx):
                        "or a hash slice with a negative bound")
     for c in (cases[1], cases[len(cases) // 3], cases[len(cases) // 2], cases[-5]):
         _place.sample(ctx, c)
-    _place.selftest(ctx, cases)
